@@ -280,13 +280,14 @@ type node struct {
 	lastVersion      int
 	results          []string
 	bcasts           []*bcast
-	abortIgnored     map[int64]bool // accepted pre-commit (by its SenderTime) that survived a newer Abort of the same proposer
-	lastPCTime       int64          // SenderTime of this node's latest PreCommit broadcast
-	attempts         []*attemptRec  // this node's proposals
-	acceptedAt       map[accKey]int // event number at which this node accepted the pre-commit (sender, SenderTime)
-	overridden       *promise       // a promise this replica gave and then overwrote with a higher-version pre-commit of someone else, not yet installed
-	forgot           []promise      // overridden promises whose overriding proposal was then released by Abort: the replica is unlocked below a version it promised
-	committedPC      map[int64]bool // SenderTimes of the PreCommit broadcasts whose section went on to Commit
+	abortIgnored     map[int64]bool     // accepted pre-commit (by its SenderTime) that survived a newer Abort of the same proposer
+	lastPCTime       int64              // SenderTime of this node's latest PreCommit broadcast
+	attempts         []*attemptRec      // this node's proposals
+	acceptedAt       map[accKey]int     // event number at which this node accepted the pre-commit (sender, SenderTime)
+	overridden       *promise           // a promise this replica gave and then overwrote with a higher-version pre-commit of someone else, not yet installed
+	forgotAccept     map[accKey]promise // pre-commits this replica accepted for a version for which it had forgotten a promise to someone else
+	forgot           []promise          // overridden promises whose overriding proposal was then released by Abort: the replica is unlocked below a version it promised
+	committedPC      map[int64]bool     // SenderTimes of the PreCommit broadcasts whose section went on to Commit
 	commits          int
 }
 
@@ -379,7 +380,7 @@ type world struct {
 }
 
 type counters struct {
-	steps, depthCapped, teardownStuck, probeRuns, probeNodeFailed, statesExpanded atomic.Int64
+	steps, depthCapped, teardownStuck, probeRuns, probeNodeFailed, statesExpanded, prefixMismatch atomic.Int64
 }
 
 // progressCtr is bumped at every scheduler step of any execution (process-level watchdog).
@@ -414,7 +415,7 @@ func newWorld(c *explore.Ctx, cfg *Cfg, codec *gobCodec, cnt *counters) *world {
 	w := &world{c: c, cfg: cfg, codec: codec, wake: make(chan struct{}, 1), installed: map[int]string{0: "0"}, winners: map[int]winner{}, hist: map[mkey]*mrec{}, cnt: cnt}
 	n := len(cfg.Scripts)
 	for i := 0; i < n; i++ {
-		w.nodes = append(w.nodes, &node{idx: i, id: tla.MakeString("n" + strconv.Itoa(i)), script: cfg.Scripts[i], attMax: cfg.MaxAttempts, phase: 'r', abortIgnored: map[int64]bool{}, committedPC: map[int64]bool{}, acceptedAt: map[accKey]int{}})
+		w.nodes = append(w.nodes, &node{idx: i, id: tla.MakeString("n" + strconv.Itoa(i)), script: cfg.Scripts[i], attMax: cfg.MaxAttempts, phase: 'r', abortIgnored: map[int64]bool{}, committedPC: map[int64]bool{}, acceptedAt: map[accKey]int{}, forgotAccept: map[accKey]promise{}})
 	}
 	for i, nd := range w.nodes {
 		var hs []resources.ReplicaHandle
@@ -740,6 +741,13 @@ func (w *world) noteProcessed(from, to int, req *resources.TwoPCRequest, before,
 			nd.overridden = &promise{sender: bs, version: before.Accepted.Version, time: before.Accepted.SenderTime, by: from}
 		} else {
 			nd.overridden.by = from // overwritten again: the oldest forgotten promise is the one that matters
+		}
+	}
+	if at, ok := nd.acceptedAt[accKey{from, req.SenderTime}]; ok && at == w.seq {
+		for _, f := range nd.forgot {
+			if f.version == req.Version && f.sender != from {
+				nd.forgotAccept[accKey{from, req.SenderTime}] = f
+			}
 		}
 	}
 	if req.RequestType == resources.Abort && before.AcceptedPreCommit && !after.AcceptedPreCommit && nd.overridden != nil {
@@ -1241,20 +1249,11 @@ func (w *world) final() {
 // (or the same with x and z exchanged).  Returns the replica and y, or -1.
 func (w *world) promiseOverridden(k, x int, xTime int64, z int, zTime int64) (int, int) {
 	for i, nd := range w.nodes {
-		for _, f := range nd.forgot {
-			if f.version != k {
-				continue
-			}
-			if f.sender == x && f.time == xTime && z != x {
-				if _, ok := nd.acceptedAt[accKey{z, zTime}]; ok {
-					return i, f.by
-				}
-			}
-			if f.sender == z && f.time == zTime && z != x {
-				if _, ok := nd.acceptedAt[accKey{x, xTime}]; ok {
-					return i, f.by
-				}
-			}
+		if f, ok := nd.forgotAccept[accKey{z, zTime}]; ok && f.version == k && f.sender == x && f.time == xTime {
+			return i, f.by
+		}
+		if f, ok := nd.forgotAccept[accKey{x, xTime}]; ok && f.version == k && f.sender == z && f.time == zTime {
+			return i, f.by
 		}
 	}
 	return -1, -1
@@ -1507,6 +1506,10 @@ func (w *world) newKeyCtx() *keyCtx {
 		for _, f := range nd.forgot {
 			k.times[f.sender].add(f.time)
 		}
+		for a, f := range nd.forgotAccept {
+			k.times[a.sender].add(a.time)
+			k.times[f.sender].add(f.time)
+		}
 	}
 	for _, x := range w.winners {
 		k.times[x.node].add(x.pcTime)
@@ -1590,6 +1593,15 @@ func (w *world) nodeSeg(k *keyCtx, i int) {
 		w.kInt(k.times[nd.overridden.sender].rank(nd.overridden.time))
 		w.kStr(".")
 		w.kInt(k.lab[nd.overridden.by])
+	}
+	if len(nd.forgotAccept) > 0 {
+		var fs []string
+		for a, f := range nd.forgotAccept {
+			fs = append(fs, fmt.Sprintf("%d.%d>%d.%d.%d", k.lab[a.sender], k.times[a.sender].rank(a.time), k.lab[f.sender], f.version, k.times[f.sender].rank(f.time)))
+		}
+		sort.Strings(fs)
+		w.kStr(" fa")
+		w.kStr(strings.Join(fs, ","))
 	}
 	if len(nd.forgot) > 0 {
 		var fs []string
@@ -1968,11 +1980,11 @@ func (w *world) run() {
 			}
 		}
 		if !found {
-			var have []string
-			for _, mv := range free {
-				have = append(have, mv.spec())
-			}
-			panic(harnessBug(fmt.Sprintf("prefix move %q is not enabled (enabled: %v) [%s]", want, have, w.cfg.name())))
+			// the tree no longer takes this path (or the prefix was written for another shape): nothing to explore
+			w.cnt.prefixMismatch.Add(1)
+			w.logf("prefix move %q is not enabled: configuration not applicable", want)
+			c.Outcome("prefix-not-applicable at " + want)
+			return
 		}
 	}
 	for {
